@@ -373,6 +373,56 @@ def check(run):
     run.assume("geometry kinds = in-repo subclasses of parent.Geometry (class table from the index)")
     from ..scenerecert import recert_rule
     recert_rule(run, ix, "R10", "C10")
+    # ------------------------------------------------------------------ R11 moving the scene composes with the edge that is there
+    run.rule("R11", "Scene methods that move the scene by updating the edge to an EXISTING child of a frame (a node taken from the graph's children) build the new matrix "
+                    "from the current matrix of that edge: overwriting it with the offset alone discards the placement (earlier offset, rotation) stored there")
+    sc_cls = ix.cls("trimesh.scene.scene.Scene")
+    n11 = 0
+    for name_, f_ in sc_cls.methods.items():
+        defs_ = {}
+        for st in ast.walk(f_.node):
+            if isinstance(st, ast.Assign):
+                for t_ in st.targets:
+                    for nm in ast.walk(t_):
+                        if isinstance(nm, ast.Name) and isinstance(nm.ctx, ast.Store):
+                            defs_.setdefault(nm.id, []).append(st.value)
+            if isinstance(st, ast.For):
+                for nm in ast.walk(st.target):
+                    if isinstance(nm, ast.Name):
+                        defs_.setdefault(nm.id, []).append(st.iter)
+
+        def slice_(e):
+            seen, todo, out = set(), [e], []
+            while todo:
+                x = todo.pop()
+                out.append(x)
+                for nm in ast.walk(x):
+                    if isinstance(nm, ast.Name) and nm.id not in seen and nm.id != "self":
+                        seen.add(nm.id)
+                        todo += defs_.get(nm.id, [])
+            return out
+
+        for c_ in ast.walk(f_.node):
+            if not (isinstance(c_, ast.Call) and isinstance(c_.func, ast.Attribute) and c_.func.attr == "update" and ast.unparse(c_.func.value).endswith(".graph")):
+                continue
+            kw = {k.arg: k.value for k in c_.keywords if k.arg}
+            to_ = kw.get("frame_to", c_.args[0] if c_.args else None)
+            mat_ = kw.get("matrix")
+            if to_ is None or mat_ is None:
+                continue
+            existing = any("children" in ast.unparse(x) for x in slice_(to_))
+            if not existing:
+                continue
+            n11 += 1
+            reads_edge = any(("graph.get(" in ast.unparse(x)) or ("graph[" in ast.unparse(x)) or ("edge_data" in ast.unparse(x)) or (".transforms.get(" in ast.unparse(x)) for x in slice_(mat_))
+            where_ = f"{f_.module.rel}:{c_.lineno} {f_.qualname}"
+            run.instance("R11", where_, f"`{ast.unparse(c_)[:70]}`: the child exists; new matrix built from the current edge: {reads_edge}", reads_edge)
+            if not reads_edge:
+                run.violation("R11", where_, f"`{f_.qualname}` sets the edge to an existing child (`{ast.unparse(to_)[:30]}`, taken from the graph's children) to `{ast.unparse(mat_)[:30]}`, "
+                                             f"which is not computed from the matrix that edge holds now: whatever placement was stored there (an earlier offset, a rotation applied "
+                                             f"through apply_transform) is discarded, so instances are no longer where the scene said they were",
+                              key=key_of("C10-R11", f_.qualname))
+    run.floor("scene methods that update the edge of an existing child", n11, 1)
     return {
         "explanation": "Footprints of the cached scene producers against Scene.__hash__; write effects rooted at the source scene for "
         "every copying / converting / exporting operation (interprocedural, callee summaries substituted); structural checks that "
